@@ -34,9 +34,9 @@ class TreeLog(object):
                 di = 0 if (isinstance(e["date"], int) and e["date"] == 0) else self.index.get(e["date"], 0)
                 self.adjusts.setdefault((di, id(e["node"])), []).append(e)
 
-    def flows(self, di, node=None):
+    def flows(self, di, node=None, external_only=False):
         node = node or self.root
-        return sum(a["amount"] for a in self.adjusts.get((di, id(node)), []) if a["flow"])
+        return sum(a["amount"] for a in self.adjusts.get((di, id(node)), []) if a["flow"] and not (external_only and a.get("ctx") is not None))
 
     def costs(self, di):
         c = 0.0
@@ -83,7 +83,7 @@ def c02_dates(run, cnt, res, coupons=None):
                         g += abs(p0 * px[id(s)][i - 1] * s.multiplier)
             for e in tl.trades.get(i, []):
                 pos[id(e["sec"])] = pos.get(id(e["sec"]), 0.0) + (e["pos1"] - e["pos0"])
-            fl = tl.flows(i)
+            fl = tl.flows(i, external_only=True)
             costs = tl.costs(i)
             prev = V[i - 1] if i > 0 else 0.0
             exp = prev + mtm + fl + carry_prev - costs
@@ -109,7 +109,8 @@ def c03_recurrence(run, cnt, res):
         F = root.data["flows"].to_numpy(dtype=float)
         n = last_row(root) + 1
         for i in range(n):
-            fl = tl.flows(i)
+            # external flows only: initial capital, CapitalFlow, user adjustments - never what bt books while trading or transferring
+            fl = tl.flows(i, external_only=True)
             bump(cnt, "c03_flow_row_evals")
             if not abs(F[i] - fl) <= REL * (1 + abs(fl) + abs(V[i])):
                 return ("c03_flows_row", {"tree": tl.who, "date_index": i, "recorded_flows": F[i], "flows_from_event_log": fl})
